@@ -112,6 +112,28 @@ def rule_deq(ctx, rep):
         ic = [i for i in g.all_insts() if i.op == "icall"]
         ok = len(ic) == 1 and ir.expr(g, ic[0].d["fp"])[0] == "load" and ir.expr(g, ic[0].d["fp"])[1].endswith("cds_lfq_queue_rcu.queue_call_rcu") and ir.expr(g, ic[0].args[1]) == ("fn", "free_dummy_cb")
         rep.check(ok, "C12.dummy", g.name, "dummy released through q->queue_call_rcu(…, free_dummy_cb)", "rcu_free_dummy does not defer through the queue's call_rcu", [g.name])
+    # the rcu_head handed to call_rcu is storage call_rcu writes at once (queue linkage, callback), while the dummy's own
+    # linkage (next, dummy flag) stays readable by every dequeuer / enqueuer that loaded it before the grace period ends:
+    # the two must not share bytes
+    mk = m.by_src("make_dummy")
+    link = []
+    for g in mk:
+        for s_ in g.all_insts():
+            if s_.op == "store" and pat.last_field(s_.d["ap"]) in ("cds_lfq_node_rcu.next", "cds_lfq_node_rcu.dummy"):
+                o = pat.ap_offset(m, s_.d["ap"])
+                if o is not None:
+                    link.append((o, o + s_.d["bits"] // 8, pat.last_field(s_.d["ap"])))
+    rh = m.structs.get("rcu_head")
+    for g in m.by_src("rcu_free_dummy"):
+        for ic in [i for i in g.all_insts() if i.op == "icall"]:
+            ap = ic.d["aps"][0]
+            o = pat.ap_offset(m, ap) if ap else None
+            if o is None or rh is None or not link:
+                raise Broken("rcu_free_dummy: offset of the rcu_head inside the dummy not computable")
+            clash = [nm for a, b, nm in link if a < o + rh["size"] and o < b]
+            rep.check(not clash, "C12.dummy", g.name + ".rcu_head-disjoint-from-linkage", "the rcu_head given to call_rcu (bytes %d..%d of the dummy) shares no byte with the dummy's queue linkage" % (o, o + rh["size"]),
+                      "the rcu_head given to call_rcu occupies bytes %d..%d of the dummy, overlapping %s: call_rcu overwrites the linkage while dequeuers that loaded this dummy before the grace period "
+                      "still follow its next pointer / test its dummy flag (chain cut, nodes lost)" % (o, o + rh["size"], clash), [ic.where()])
     for g in m.by_src("make_dummy"):
         sts = [s for s in g.all_insts() if s.op == "store"]
         flds = set(pat.last_field(s.d["ap"]) for s in sts)
